@@ -49,7 +49,8 @@ Definition key_le_opt (lo hi : option key) : Prop :=
   match lo, hi with Some l, Some h => key_leb l h = true | _, _ => True end.
 
 (* what SubsetAccumulation(start, end) computes when the splits are right (the code's formula): for start <= end it is
-   the subset sum; for (nil, nil) it is left+exact of a split at the empty key, i.e. the empty key's value (F2a) *)
+   the subset sum; for (nil, nil) it is left+exact of a split at the empty key, i.e. the empty key's value (and for
+   start > end minus the sum strictly between) - both outside the documented domain *)
 Definition code_subset (s : smap) (lo hi : option key) : Z :=
   match lo, hi with
   | None, None => sm_left s [] + sm_exact s []
@@ -58,8 +59,8 @@ Definition code_subset (s : smap) (lo hi : option key) : Z :=
   | Some l, Some h => sm_exact s l + sm_right s l - sm_right s h
   end.
 
-(* every query of the stored tree answers like the sorted map [s], with TotalAccumulatedValue / SubsetAccumulation(nil,nil)
-   as the code actually computes them *)
+(* every query of the stored tree answers like the sorted map [s]; SubsetAccumulation is additionally described for ALL
+   argument pairs by the code's formula [code_subset] *)
 Record answers_actual (st : store) (s : smap) : Prop := mkAns {
   an_abs : abs st = s;
   an_get : forall k, tree_get st k = sm_get s k;
@@ -68,12 +69,12 @@ Record answers_actual (st : store) (s : smap) : Prop := mkAns {
   an_subset : forall lo hi, key_le_opt lo hi -> (lo <> None \/ hi <> None) ->
               subset_acc st lo hi = Ok (sm_subset s lo hi);
   an_prefix : forall h, prefix_sum st (Some h) = Ok (sm_prefix s h);
-  an_total_actual : total_acc st = Ok (sm_get s []);
+  an_total : total_acc st = Ok (sm_total s);
   an_split_total : forall q, sm_left s q + sm_exact s q + sm_right s q = sm_total s;
   an_iter : forall b e, iterate st b e = sm_iter s b e;
   an_rev_iter : forall b e, rev_iterate st b e = sm_rev_iter s b e }.
 
-(* ... and as the property demands: the total is the sum of all values *)
+(* ... and as the property demands for every history (Remove included, and SubsetAccumulation(nil, nil) = everything) *)
 Record answers_full (st : store) (s : smap) : Prop := mkAnsFull {
   af_get : forall k, tree_get st k = sm_get s k;
   af_split : forall q, split_acc st q = Ok (sm_split s q);
